@@ -12,6 +12,7 @@ mod sampler;
 mod scalar;
 mod sched;
 mod scope;
+mod seqfmt;
 mod sprops;
 mod table;
 
